@@ -128,14 +128,17 @@ func (s *hC02Store) Get(key string, target interface{}) error {
 }
 
 func (s *hC02Store) Put(key string, value interface{}, options ...storage.SessionOption) error {
-	if len(options) != 0 {
-		panic("hC02Store.Put: options not modelled")
+	ttl := s.ttl
+	for _, o := range options {
+		// the only option is storage.WithTTL(ttl): a closure over the duration (its parameter type is unexported)
+		ttl = vFreeVar(o, 0).(time.Duration)
 	}
 	if s.db.failPut[s.name] {
 		return errors.New("harness: store unavailable")
 	}
-	s.db.puts = append(s.db.puts, hC02Put{store: s.name, key: key, ttl: s.ttl})
-	if s.ttl <= 0 {
+	s.db.puts = append(s.db.puts, hC02Put{store: s.name, key: key, ttl: ttl})
+	if ttl <= 0 {
+		// as the real store: nothing is stored for a non-positive TTL
 		return nil
 	}
 	var out []hC02Entry
@@ -144,7 +147,7 @@ func (s *hC02Store) Put(key string, value interface{}, options ...storage.Sessio
 			out = append(out, e)
 		}
 	}
-	s.db.data[s.name] = append(out, hC02Entry{key: key, val: value, deadline: hC02Clock.Add(s.ttl)})
+	s.db.data[s.name] = append(out, hC02Entry{key: key, val: value, deadline: hC02Clock.Add(ttl)})
 	return nil
 }
 
